@@ -299,7 +299,7 @@ example (M : F64Mod K) (d : DVar) (k : ℕ) (a : Var) (s : AState) :
       (a ∈ vars ∧ ∃ sp, s.ppol k = some sp ∧ ∀ i, i < a.size → i < d.size →
         ProdBudget M (polyArr M.N fun t => (s.env a).coef i t) (polyArr M.N fun t => sp.getD t 0)) := Iff.rfl
 example (M : F64Mod K) (d a : DVar) (m : MVar) (s : AState) :
-    PreF M vars (.vmpDD d a m) s ↔ ∃ P Mv, s.dvec a = some P ∧ s.pmat m = some Mv ∧
+    PreF M vars (.vmpDD d a m) s ↔ d ≠ a ∧ ∃ P Mv, s.dvec a = some P ∧ s.pmat m = some Mv ∧
       VmpBudget M (matOf M Mv m.nrows m.ncols) m.nrows m.ncols (flatOf M.N a.size fun i t => P.coef i t) a.size d.size :=
   Iff.rfl
 example (M : F64Mod K) (d : Var) (a : DVar) (s : AState) :
